@@ -9,8 +9,10 @@ python3 - "$ID" "$line" "$WT" <<'PY'
 import json,sys
 id,line,wt=sys.argv[1:4]
 p=f'/verif/seeded/{id}/meta.json'; m=json.load(open(p)); m['property']=id.split('-')[0]
-m['origin']='independent sub-agent given only the property text and a scratch worktree (round 2: rare, inconspicuous triggers requested)' if '/wt2/' in wt else 'independent sub-agent given only the property text and a scratch worktree'
-m['base_commit']='current /repo HEAD at the time (with fix: and hook commits)' if '/wt2/' in wt else 'pinned commit'
+rounds={'/wt2/':'round 2: rare, inconspicuous triggers requested','/wt4/':'round 3: m5 = two cooperating sites that each look fine alone, m6 = only a multi-step use or an unusual representation shows it'}
+rn=[v for k,v in rounds.items() if k in wt]
+m['origin']='independent sub-agent given only the property text and a scratch worktree'+(' ('+rn[0]+')' if rn else '')
+m['base_commit']='current /repo HEAD at the time (with fix: and hook commits)' if rn else 'pinned commit'
 m['confirmation']={'status':'CONFIRMED','by':'tools/confirm_mutant.sh in '+wt+': demo on the unchanged tree passes, full suite with the change passes (cargo test --workspace --no-fail-fast --offline), demo with the change fails','line':line}
 json.dump(m,open(p,'w'),indent=1)
 PY
